@@ -1,13 +1,14 @@
 HARNESSES = {
     'ZeroRadius': dict(split={'smooth': 3}, oracle=6, job_timeout_s=150),
     'ZeroRadiusRel': dict(mode='X', validate=0),  # rounded-real reading: unknown at 60 s (nlsat); exact-real decides the algebra only
-    'Segments': dict(skip=True),
+    'Segments': dict(mode='X', validate=0, oracle=8, inproc_ms=4000, ext_s=30, job_timeout_s=300, split={'large': 2, 'sweep': 2}, opts=dict(feas_timeout_ms=300, ifconv=False)),
     'General': dict(mode='X', validate=0, oracle=6, inproc_ms=2000, ext_s=20, split={'rot': 2, 'large': 2, 'sweep': 2}, opts=dict(feas_timeout_ms=300, ifconv=False)),
 }
 BOUNDS = {
     'ZeroRadius': 'bit exact: every float32 radius pair with a zero/NaN radius, every endpoint, viewBox, rectangle size up to 65536, pen; absolute form',
     'ZeroRadiusRel': 'exact-real reading (rounding not modelled): relative form, moderate magnitudes, 48x20 rectangle',
     'RelIsAbsFromPen': 'bit exact, relational: RelArcTo = AbsArcTo at the endpoint measured from the pen (degenerate branch executed; the general branch is the same delegation)',
+    'Segments': 'exact-real reading, sin/cos/acos uninterpreted (range contracts only): every non-degenerate arc with operands of magnitude up to 2^100 is at most four rasteriser calls, all cubics (same harness as C02/ArcSegments)',
     'General': 'exact-real reading, sin/cos/acos uninterpreted (range contracts only): non-degenerate arcs with start, end in [-64,64]^2 (distinct), radii in [1/4,64], '
                'x-axis rotation 0 or 1/8 turn (concrete), all four flag combinations, viewBox (-32,-16)-(32,48) on a 48x20 raster (non-uniform, off-origin); '
                'claims: at most 4 segments, one CubeTo per segment, every control/end point equals (1e-3 px + 1e-4 rel) the point the SVG centre parameterisation '
